@@ -649,7 +649,13 @@ func (w *RouteWorld) allShards() []*shardModel {
 func (w *RouteWorld) Actions() []simrt.Action {
 	var acts []simrt.Action
 	add := func(name string, weight int, fault bool, do func()) {
-		acts = append(acts, simrt.Action{Name: name, Weight: weight, Fault: fault, Do: do})
+		// fair tail: the clusters' receivers are prompt (they read, complete and ack before the
+		// sources' next periodic step), which is the premise of the liveness clause
+		prio := 0
+		if strings.HasPrefix(name, "src-send") || strings.HasPrefix(name, "src-watermark") || strings.HasPrefix(name, "gen") {
+			prio = 1
+		}
+		acts = append(acts, simrt.Action{Name: name, Weight: weight, Fault: fault, Prio: prio, Do: do})
 	}
 	now := w.s.Now()
 	tail := w.phase == 1
@@ -735,7 +741,11 @@ func (w *RouteWorld) Actions() []simrt.Action {
 				if un > 0 {
 					add("src-send:"+sc.st.Name, 6, false, func() { w.srcSend(sc, false) })
 				} else if w.emitsTasks(sh.cluster) || true {
-					wmOK := sc.lastHighSent != sh.nextID || now-sc.lastWmAt >= time.Second
+					// periodic watermark; periods differ slightly per shard (independent clusters'
+					// timers are never phase-locked, and a phase-locked schedule could starve one
+					// source's broadcasts on a full queue forever, which is not what C03 is about)
+					period := time.Second + time.Duration(int(sh.cluster)*7+int(sh.id)*3)*13*time.Millisecond
+					wmOK := sc.lastHighSent != sh.nextID || now-sc.lastWmAt >= period
 					if wmOK {
 						wt := 3
 						if sc.lastHighSent == sh.nextID {
